@@ -519,7 +519,9 @@ template<class T> void child_body(Case const& c) {
 		bool outside = false; for(std::size_t a = 0; a < act.size(); ++a) if(act[a] != snap[a] && !(fits && outimg[a])) outside = true;
 		num = outside ? "num FAIL outside" : "num rejected";
 	} else if(!fits) {
-		num = "num FAIL accepted-mismatch";
+		// operands whose sizes do not fit were accepted: harmless only if nothing at all was computed (e.g. an empty A)
+		bool changed = false; for(std::size_t a = 0; a < act.size(); ++a) if(act[a] != snap[a]) changed = true;
+		num = (changed || g_has_rval) ? "num FAIL accepted-mismatch" : "num ok";
 	} else {
 		num = judge(act, expect, outimg, intok);
 		if(num == "num ok" && has_r && !(g_has_rval && g_rval == rexp)) num = "num FAIL wrong";
